@@ -1,11 +1,35 @@
-(* C04 — inferred types admit every observed value, for every TypedDict size limit.
+(* C04 — inferred types admit every observed value, for every TypedDict size limit; inference is total; the merged
+   type does not depend on the order (and, outside one recorded class, the multiplicity) in which values were seen.
    Only statements, `exact`, Print Assumptions and non-vacuity examples live here. *)
-From MT Require Import Types Infer GetTypeSound.
+From MT Require Import Types Infer GetTypeSound InferTotal MergePermBase MergePerm MergePermInfer MergePermEquiv StubSet.
 
-(* Soundness, for EVERY class hierarchy table h, EVERY limit k, EVERY finite collection of
-   (well-formed: dict keys distinct) values: whenever inference returns a type, every observed
-   value is a member of it - already under the TIGHT reading, in which `Any` (which inference only
-   produces for the elements of an empty container) admits nothing ... *)
+(* ---- totality: "inference terminates without error" ---- *)
+Theorem infer_total :
+  forall (k : nat) (vs : list value), forallb wf_valueb vs = true -> exists t, infer k vs = Some t.
+Proof. exact InferTotal.infer_total. Qed.
+Print Assumptions infer_total.
+
+Theorem shrink_top_total :
+  forall (k : nat) (ts : list ty), Forall TypesFacts.wf_ty ts -> exists t, shrink_top k ts = Some t.
+Proof. exact InferTotal.shrink_top_total. Qed.
+Print Assumptions shrink_top_total.
+
+Theorem get_type_total :
+  forall (k : nat) (v : value), wf_valueb v = true -> exists t, get_type k v = Some t.
+Proof. exact InferTotal.get_type_total. Qed.
+Print Assumptions get_type_total.
+
+(* make_typed_dict's disjointness assert never fires on the maps the merge builds *)
+Theorem merge_never_asserts :
+  forall ts : list ty, Forall TypesFacts.wf_ty ts ->
+    keys_disjoint (fst (td_merge_maps ts)) (snd (td_merge_maps ts)) = true.
+Proof. exact InferTotal.merge_disjoint. Qed.
+Print Assumptions merge_never_asserts.
+
+(* ---- soundness ----
+   for EVERY class hierarchy table h, EVERY limit k, EVERY finite collection of (well-formed: dict keys distinct)
+   values: every observed value is a member of the inferred type - already under the TIGHT reading, in which `Any`
+   (which inference only produces for the elements of an empty container) admits nothing ... *)
 Theorem infer_sound :
   forall (h : hierarchy) (k : nat) (vs : list value) (t : ty) (v : value),
     forallb wf_valueb vs = true -> infer k vs = Some t -> In v vs ->
@@ -28,6 +52,45 @@ Theorem infer_well_formed :
     forallb wf_valueb vs = true -> infer k vs = Some t -> TypesFacts.wf_ty t.
 Proof. exact infer_wf_closed. Qed.
 Print Assumptions infer_well_formed.
+
+(* ---- order: the merged type does not depend on the order in which the values (types) were seen ----
+   up to `equivb` (union members as sets, TypedDict fields as maps) and hence in what it admits; TypedDicts anywhere *)
+Theorem merge_order_invariant :
+  forall k ts ts', Forall TypesFacts.wf_ty ts -> Permutation.Permutation ts ts' ->
+    opt_equivb (shrink_top k ts) (shrink_top k ts') = true.
+Proof. exact merge_perm_equivb. Qed.
+Print Assumptions merge_order_invariant.
+
+Theorem infer_order_invariant :
+  forall anyb sub k vs vs' t t', forallb wf_valueb vs = true -> Permutation.Permutation vs vs' ->
+    infer k vs = Some t -> infer k vs' = Some t' -> forall v, member anyb sub v t = member anyb sub v t'.
+Proof. intros anyb sub k vs vs' t t'. exact (infer_perm_members anyb sub k vs vs' t t'). Qed.
+Print Assumptions infer_order_invariant.
+
+(* ---- multiplicity: seeing a value again does not change what the merged type admits, provided its type has no
+        TypedDict below a union (class kf_td_under_union: such types hash by identity in Python and never
+        deduplicate); inside that class the statement is refuted (Refuted/C04.v) ---- *)
+Theorem infer_multiplicity_invariant :
+  forall anyb sub k vs x tx t t', forallb wf_valueb vs = true -> In x vs ->
+    get_type k x = Some tx -> kf_td_under_union tx = false ->
+    infer k vs = Some t -> infer k (x :: vs) = Some t' -> forall v, member anyb sub v t = member anyb sub v t'.
+Proof. intros anyb sub k vs x tx t t'. exact (infer_dup_members anyb sub k vs x tx t t'). Qed.
+Print Assumptions infer_multiplicity_invariant.
+
+(* with the default limit 0 (no TypedDicts at all) the merged type depends only on the SET of values seen *)
+Theorem infer0_depends_on_set_only :
+  forall anyb sub vs vs' t t', forallb wf_valueb vs = true ->
+    incl vs vs' -> incl vs' vs -> infer 0 vs = Some t -> infer 0 vs' = Some t' ->
+    forall v, member anyb sub v t = member anyb sub v t'.
+Proof. intros anyb sub vs vs' t t'. exact (infer0_set_members anyb sub vs vs' t t'). Qed.
+Print Assumptions infer0_depends_on_set_only.
+
+(* Python's == on type objects is the set-like equivalence exactly outside the class *)
+Theorem py_eq_characterised :
+  forall a b, TypesFacts.wf_ty a -> TypesFacts.wf_ty b ->
+    (py_eqb a b = true <-> equivb a b = true /\ kf_td_under_union a = false /\ kf_td_under_union b = false).
+Proof. exact py_eqb_char. Qed.
+Print Assumptions py_eq_characterised.
 
 (* Non-vacuity: a concrete heterogeneous collection meets the premises and infers a TypedDict
    with a required and an optional key. *)
